@@ -230,6 +230,11 @@ func genRouter(tp *core.Tape, ip netip.Addr) *storage.StoredRouter {
 	}
 	if tp.Chance(1, 2) {
 		u := time.Now().Add(-time.Duration(tp.Intn(1 << 30)))
+		if tp.Chance(1, 4) {
+			// a stamp ahead of the clock of the next start (the state file was written under a
+			// clock that ran ahead, or was copied from another machine)
+			u = time.Now().Add(time.Duration(1+tp.Intn(1<<30)) * time.Millisecond)
+		}
 		r.UsedAt = &u
 	}
 	return r
